@@ -1089,8 +1089,73 @@ fn gen_kf_reorder_oom(w: &mut dyn Write) {
     writeln!(w, "show f1").unwrap();
 }
 
+/// collections racing with operations whose results die immediately and whose keys repeat: a
+/// memoised result must never survive the collection that frees it
+fn gc_race_case(cfg: &GenCfg, rng: &mut Rng, w: &mut dyn Write, kind: &str, idx: usize) {
+    let n = 14u32;
+    let low = 9u32; // operands live on the bottom variables low..n; the ballast spreads over all levels
+    writeln!(w, "case c07-gcrace-{}-{}", kind, idx).unwrap();
+    writeln!(w, "mgr nodes=4194304 cache=4096 threads=4 split=auto vars={}", n).unwrap();
+    writeln!(w, "ballast {} {} 0 {}", if cfg.thorough { 200000 } else { 50000 }, rng.below(1 << 30), n).unwrap();
+    let mut pool: Vec<String> = Vec::new();
+    for v in low..n {
+        writeln!(w, "var x{} {}", v, v).unwrap();
+        pool.push(format!("x{v}"));
+    }
+    for s in 0..24 {
+        let name = format!("p{s}");
+        writeln!(w, "op {} {} {} {}", name, rng.pick(&BIN_OPS), rng.pick(&pool), rng.pick(&pool)).unwrap();
+        pool.push(name);
+    }
+    // a small set of keys that every thread keeps recomputing
+    let keys: Vec<String> = (0..12).map(|_| format!("{} {} {}", rng.pick(&BIN_OPS), rng.pick(&pool), rng.pick(&pool))).collect();
+    for round in 0..(if cfg.thorough { 6 } else { 2 }) {
+        let mut seqs: Vec<Vec<String>> = vec![Vec::new(); 4];
+        for _ in 0..(if cfg.thorough { 60 } else { 40 }) {
+            seqs[0].push("t0:pargc".into());
+        }
+        for t in 1..4 {
+            for i in 0..(if cfg.thorough { 150 } else { 90 }) {
+                let k = rng.pick(&keys);
+                seqs[t].push(format!("t{}:op t{}_tmp{} {}", t, t, i % 3, k));
+                if i % 3 == 2 {
+                    // results die: the next collection frees them while their keys stay hot
+                    seqs[t].push(format!("t{}:drop t{}_tmp0", t, t));
+                    seqs[t].push(format!("t{}:drop t{}_tmp1", t, t));
+                    seqs[t].push(format!("t{}:drop t{}_tmp2", t, t));
+                }
+            }
+        }
+        let mut idxs = vec![0usize; 4];
+        let mut items: Vec<String> = Vec::new();
+        loop {
+            let live: Vec<usize> = (0..4).filter(|&t| idxs[t] < seqs[t].len()).collect();
+            if live.is_empty() {
+                break;
+            }
+            let t = *rng.pick(&live);
+            items.push(seqs[t][idxs[t]].clone());
+            idxs[t] += 1;
+        }
+        writeln!(w, "par {}", items.join(" ; ")).unwrap();
+        writeln!(w, "audit").unwrap();
+        for k in &keys {
+            writeln!(w, "op chk{} {}", round, k).unwrap();
+        }
+    }
+    writeln!(w, "dropballast").unwrap();
+    writeln!(w, "dropall").unwrap();
+    writeln!(w, "gc").unwrap();
+    writeln!(w, "dump").unwrap();
+}
+
 /// C07: several application threads run operation scripts concurrently on one manager
 fn gen_c07(cfg: &GenCfg, rng: &mut Rng, w: &mut dyn Write, kind: &str) {
+    if kind == "bdd" || (cfg.thorough && !zbdd(kind)) {
+        for i in 0..(if cfg.thorough { 3 } else { 1 }) {
+            gc_race_case(cfg, rng, w, kind, i);
+        }
+    }
     let z = zbdd(kind);
     let quants = ["forall", "exists", "unique"];
     let cases = if cfg.thorough { 300 } else { 40 } * cfg.scale;
